@@ -905,6 +905,10 @@ def cname_of(q, aliases):
     s2 = re.sub(r'\W+', '_', s).strip('_')
     return (s2[:40] + '_' + h)
 
+# names of pure virtual slots, used only when no overrider's vtable is in the translation unit; every
+# translation unit where the name CAN be derived is checked against this table (mismatch = abort)
+KNOWN_SLOTS = {('Expression', 2): 'unparse', ('Expression', 4): 'type', ('Expression', 5): 'value'}
+
 class Renderer:
     def __init__(self, unit, objfile, aliases=None, line_directives=True, transparent=(), enums=(), extra_structs=()):
         self.enums = list(enums)
@@ -947,6 +951,11 @@ class Renderer:
                             names.add(uq(e2))
                 if len(names) == 1:
                     meth = names.pop()
+        known = KNOWN_SLOTS.get((cls, slot))
+        if meth and known and meth != known:
+            raise G2CError('vtable slot %d of %s is %s, the table in g2c.py says %s: update KNOWN_SLOTS' % (slot, cls, meth, known))
+        if not meth and known:
+            meth = known      # pure virtual in this translation unit and no overrider in sight
         name = 'VCALL_%s_%s' % (cls, meth if meth else str(slot))
         self.vcalls[name] = (cls, slot, meth)
         return name
